@@ -15,7 +15,9 @@ fn list<'a>(s: &'a str, sep: char) -> Vec<&'a str> { if s == "-" { vec![] } else
 #[derive(Clone, Debug)]
 pub enum AppDir { Rel(String), Abs(String), Missing }
 #[derive(Clone, Debug)]
-pub enum Edit { Write(String, Vec<u8>), Delete(String) }
+/// what an `app_dir_preprocessor` does: overwrite a file, remove it if present, **append** to it, **rename** it (panics if
+/// the source is missing), **remove** it (panics if missing) — the last three are not idempotent
+pub enum Edit { Write(String, Vec<u8>), Delete(String), Append(String, Vec<u8>), Rename(String, String), Remove(String) }
 #[derive(Clone, Debug)]
 pub struct BCfg {
     pub builder: String, pub app: AppDir, pub pre: Option<Vec<Edit>>, pub bps: Vec<String>, pub env: Vec<(String, String)>,
@@ -29,7 +31,9 @@ pub struct CCfg {
 #[derive(Clone, Debug)]
 pub enum CAct { LogsNow, LogsWait, Port(u16), Exec(String), Panic }
 #[derive(Clone, Debug)]
-pub enum Act { Start(usize, Vec<CAct>), Shell(String), Sbom, Rebuild(usize, Vec<Act>), Panic }
+/// `Rebuild(i, …)`: `context.rebuild(<fresh config i>, …)`; `RebuildCtx(i, …)`: `context.rebuild(context.config.clone() + the env pairs
+/// and expected pack result of config i set after the clone, …)` — everything else is inherited from the context's config
+pub enum Act { Start(usize, Vec<CAct>), Shell(String), Sbom, Rebuild(usize, Vec<Act>), RebuildCtx(usize, Vec<Act>), Panic }
 #[derive(Clone, Debug)]
 pub struct Tree { pub cfg: usize, pub acts: Vec<Act> }
 
@@ -45,6 +49,9 @@ pub fn parse_bcfg(s: &str) -> Option<BCfg> {
         Some(p[2].split('/').map(|e| match e.chars().next()? {
             'w' => { let (a, b) = e[1..].split_once(':')?; Some(Edit::Write(unhex_str(a)?, unhex(b)?)) }
             'd' => Some(Edit::Delete(unhex_str(&e[1..])?)),
+            'a' => { let (a, b) = e[1..].split_once(':')?; Some(Edit::Append(unhex_str(a)?, unhex(b)?)) }
+            'r' => { let (a, b) = e[1..].split_once(':')?; Some(Edit::Rename(unhex_str(a)?, unhex_str(b)?)) }
+            'x' => Some(Edit::Remove(unhex_str(&e[1..])?)),
             _ => None,
         }).collect::<Option<Vec<_>>>()?)
     };
@@ -100,7 +107,7 @@ fn parse_acts(tok: &[&str], pos: &mut usize, n: usize) -> Option<Vec<Act>> {
             "X" => Act::Panic, "D" => Act::Sbom,
             "H" => { let c = hexarg(tok.get(*pos)?)?; *pos += 1; Act::Shell(c) }
             "S" => { let i = tok.get(*pos)?.parse().ok()?; let n = tok.get(*pos + 1)?.parse().ok()?; *pos += 2; Act::Start(i, parse_cacts(tok, pos, n)?) }
-            "R" => { if i + 1 != n { return None; } let c = tok.get(*pos)?.parse().ok()?; let m = tok.get(*pos + 1)?.parse().ok()?; *pos += 2; Act::Rebuild(c, parse_acts(tok, pos, m)?) }
+            "R" | "RC" => { if i + 1 != n { return None; } let c = tok.get(*pos)?.parse().ok()?; let m = tok.get(*pos + 1)?.parse().ok()?; *pos += 2; let inner = parse_acts(tok, pos, m)?; if t == "R" { Act::Rebuild(c, inner) } else { Act::RebuildCtx(c, inner) } }
             _ => return None,
         });
     }
@@ -122,7 +129,7 @@ pub fn parse_tree(s: &str) -> Option<Tree> {
 pub fn chain(t: &Tree) -> Vec<usize> {
     let mut out = vec![t.cfg];
     let mut acts = &t.acts;
-    while let Some(Act::Rebuild(c, a)) = acts.last() { out.push(*c); acts = a; }
+    while let Some(Act::Rebuild(c, a) | Act::RebuildCtx(c, a)) = acts.last() { out.push(*c); acts = a; }
     out
 }
 
@@ -130,7 +137,7 @@ pub fn chain(t: &Tree) -> Vec<usize> {
 pub fn enc_pairs(l: &[(String, String)]) -> String { if l.is_empty() { "-".into() } else { l.iter().map(|(k, v)| format!("{}={}", hex(k.as_bytes()), hex(v.as_bytes()))).collect::<Vec<_>>().join("/") } }
 pub fn enc_bcfg(c: &BCfg) -> String {
     let app = match &c.app { AppDir::Rel(s) => format!("r{}", hex(s.as_bytes())), AppDir::Abs(s) => format!("a{}", hex(s.as_bytes())), AppDir::Missing => "m".into() };
-    let pre = match &c.pre { None => "-".into(), Some(e) if e.is_empty() => "n".into(), Some(e) => e.iter().map(|e| match e { Edit::Write(p, b) => format!("w{}:{}", hex(p.as_bytes()), hex(b)), Edit::Delete(p) => format!("d{}", hex(p.as_bytes())) }).collect::<Vec<_>>().join("/") };
+    let pre = match &c.pre { None => "-".into(), Some(e) if e.is_empty() => "n".into(), Some(e) => e.iter().map(|e| match e { Edit::Write(p, b) => format!("w{}:{}", hex(p.as_bytes()), hex(b)), Edit::Delete(p) => format!("d{}", hex(p.as_bytes())), Edit::Append(p, b) => format!("a{}:{}", hex(p.as_bytes()), hex(b)), Edit::Rename(a, b) => format!("r{}:{}", hex(a.as_bytes()), hex(b.as_bytes())), Edit::Remove(p) => format!("x{}", hex(p.as_bytes())) }).collect::<Vec<_>>().join("/") };
     let bps = if c.bps.is_empty() { "-".into() } else { c.bps.iter().map(|b| hex(b.as_bytes())).collect::<Vec<_>>().join("/") };
     format!("{};{};{};{};{};{};{};{}", hex(c.builder.as_bytes()), app, pre, bps, enc_pairs(&c.env), if c.expect_success { "s" } else { "f" }, c.triple, u8::from(c.pack_nonzero))
 }
@@ -150,6 +157,7 @@ fn enc_acts(a: &[Act], out: &mut Vec<String>) {
         Act::Shell(c) => { out.push("H".into()); out.push(format!("h{}", hex(c.as_bytes()))) }
         Act::Start(i, c) => { out.push("S".into()); out.push(i.to_string()); out.push(c.len().to_string()); enc_cacts(c, out) }
         Act::Rebuild(i, a) => { out.push("R".into()); out.push(i.to_string()); out.push(a.len().to_string()); enc_acts(a, out) }
+        Act::RebuildCtx(i, a) => { out.push("RC".into()); out.push(i.to_string()); out.push(a.len().to_string()); enc_acts(a, out) }
     } }
 }
 pub fn enc_tree(t: &Tree) -> String { let mut out = vec!["B".to_string(), t.cfg.to_string(), t.acts.len().to_string()]; enc_acts(&t.acts, &mut out); out.join(",") }
